@@ -1,13 +1,13 @@
 CONSTANTS
   MaxLen = 3
   Cap = 2
-  AllowClose = TRUE
+  AllowClose = FALSE
   EmitUnlocked = FALSE
   StallFire = FALSE
-  FixedTimer = FALSE
-  Split = FALSE
+  FixedTimer = TRUE
+  Split = TRUE
   PeekStop = FALSE
   WireGaps = FALSE
 SPECIFICATION Spec
-INVARIANT NoPanic
+INVARIANT TimingExact
 CHECK_DEADLOCK TRUE
